@@ -1,7 +1,7 @@
 """C18 - connection setup honours the URL and fails cleanly on bad input."""
 import os
 from facts import walk, callee_of, call_args, loc
-import hirq, anchors, absx, cone, engine
+import hirq, anchors, absx, cone, engine, sem
 
 EXPLANATION = ("U1 panic-source cone (MIR call graph) from the eight public constructors, stopped at the operation issue point and the "
                "driver loop (what lies behind them is driven by server data and decided by C11): every diverging call, Assert terminator "
@@ -21,11 +21,21 @@ TRIAGE = os.path.join(engine.VERIF, 'rules', 'triage', 'C18.tsv')
 AC = 'ldap3::conn::LdapConnAsync::'
 
 def strip_site(t):
+    """call-site ids removed, and a value taken out of a place (`Option::take`, `mem::take`) read as the value the place held: the
+    rules below ask what was tested about the pre-opened stream / which value flows where, however it was moved out of the settings"""
     if isinstance(t, tuple):
         if t and t[0] == 'call' and len(t) == 4:
+            if t[1] == absx.Interp.TAKE and len(t[2]) == 1:
+                return strip_site(t[2][0])
             return ('call', t[1], tuple(strip_site(x) for x in t[2]), None)
         return tuple(strip_site(x) for x in t)
     return t
+
+def one_param(ctx, f, B, what, pred):
+    """the parameter of a constructor anchored by its type"""
+    ps = sem.params_of_type(f, B, pred)
+    ctx.add('U0.parameter', '%s of %s' % (what, B.path.rsplit('::', 1)[-1]), loc(B.root), len(ps) == 1, 'no single parameter of type %s: anchor lost' % what)
+    return ('param', ps[0] if ps else what)
 
 def run(ctx):
     f = ctx.facts
@@ -54,11 +64,17 @@ def run(ctx):
     ctx.floor('U1', 'bodies in the setup cone', len(parent), 10)
 
     # ------------------------------------------------------------------ U2 TCP constructor paths
+    R = anchors.ConnSettings(f)         # the settings' private fields, each anchored as the field its public setter writes
+    F_STREAM, F_TIMEOUT = R.field.get('std-stream'), R.field.get('conn-timeout')
+    ctx.add('U0.settings-fields', R.ST, '', F_STREAM is not None and F_TIMEOUT is not None, 'set_std_stream / set_conn_timeout do not write a field of the settings: anchor lost')
+    is_url = lambda t: t == 'url::Url'
+    is_settings = lambda t: t == R.ST
     B = hirq.Body(f, f.body(AC + 'new_tcp'))
     outs = absx.Interp(f, B, unroll=1, combinators=True).run(root=B.root['body'] if B.root['k'] == 'Closure' else B.root)
-    hs = ('call', 'url::Url::host_str', (('param', 'url'),), None)
-    pt = ('call', 'url::Url::port', (('param', 'url'),), None)
-    sc = ('call', 'url::Url::scheme', (('param', 'url'),), None)
+    URL, SETT = one_param(ctx, f, B, '&Url', is_url), one_param(ctx, f, B, 'LdapConnSettings', is_settings)
+    hs = ('call', 'url::Url::host_str', (URL,), None)
+    pt = ('call', 'url::Url::port', (URL,), None)
+    sc = ('call', 'url::Url::scheme', (URL,), None)
     seen = set()
     n_conn = 0
     for o in outs:
@@ -103,18 +119,27 @@ def run(ctx):
     for need in needs:
         ctx.add('U2.coverage', need, loc(B.root), need in seen, 'no path for ' + need)
     # stream kinds in the TCP constructor
+    seen_kinds = set()
     for o in outs:
         pcs = [(strip_site(a), t) for a, t in o.st.pc]
-        ss = ('field', ('param', 'settings'), 'std_stream')
+        ss = ('field', SETT, F_STREAM)
         kinds = [a[2] for a, t in pcs if t and a[0] == 'is' and (a[1] == ss or a[1] == ('variant', ss, 'Some', 0))]
         if 'StdStream::Tcp' in kinds:
             fs = [e for e in o.st.ev if e[0] == 'call' and e[1].endswith('TcpStream::from_std')]
             con = [e for e in o.st.ev if e[0] == 'call' and e[1].endswith('TcpStream::connect')]
             if o.kind == 'val':
-                ctx.add('U3.tcp-preopened-used', 'Tcp', loc(B.root), len(fs) == 1 and not con, 'a pre-opened TCP stream must be used instead of connecting')
+                seen_kinds.add('Tcp')
+                ctx.add('U3.tcp-preopened-used', 'Tcp', loc(B.root), len(fs) == 1 and not con and strip_site(fs[0][2][0]) == ('variant', ('variant', ss, 'Some', 0), 'StdStream::Tcp', 0),
+                        'a pre-opened TCP stream must be used instead of connecting')
         elif 'Some' in kinds and 'StdStream::Tcp' not in kinds:
-            ok = o.kind == 'ret' and strip_site(o.val) == ('ctor', 'Err', (('ctor', 'LdapError::MismatchedStreamType', ()),))
+            seen_kinds.add('non-Tcp')
+            v = strip_site(o.val)
+            if v[0] == 'tryerr' and v[1][0] == 'ctor' and v[1][1] == 'Err':
+                v = v[1]            # `helper(..)?` propagating the helper's Err(x) is the same result as `return Err(x)`
+            ok = o.kind == 'ret' and v == ('ctor', 'Err', (('ctor', 'LdapError::MismatchedStreamType', ()),))
             ctx.add('U3.tcp-mismatched-stream', 'non-Tcp', loc(B.root), ok, 'a pre-opened stream that is not TCP must be rejected with MismatchedStreamType')
+    for need in ('Tcp', 'non-Tcp'):
+        ctx.add('U3.coverage-tcp', need, loc(B.root), need in seen_kinds, 'no path of the TCP constructor for a pre-opened %s stream' % need)
 
     # a new connection is dialled only when the settings carry no pre-opened stream at all (whatever its kind: a cloned settings
     # value holds StdStream::Invalid); decided on the path condition of every dialling path, so a catch-all arm is seen
@@ -124,9 +149,9 @@ def run(ctx):
         if not con:
             continue
         n_dial += 1
-        ss = ('field', ('param', 'settings'), 'std_stream')
+        ss = ('field', SETT, F_STREAM)
         # (the settings value may have gone through a builder call such as set_starttls(false) first: it is still the caller's)
-        is_ss = lambda v: v[0] == 'field' and v[2] == 'std_stream' and (v[1] == ss[1] or absx.leaves(v[1], lambda x: x == ss[1]) != [])
+        is_ss = lambda v: v[0] == 'field' and v[2] == F_STREAM and (v[1] == ss[1] or absx.leaves(v[1], lambda x: x == ss[1]) != [])
         none = absx.pc_variant([(strip_site(a), t) for a, t in o.st.pc], is_ss, 'None')
         ctx.add('U3.dial-only-without-preopened-stream', 'new_tcp', loc(con[0][3]), none is True,
                 'the TCP constructor dials the URL\'s address on a path that has not established that no pre-opened stream was supplied: a stream of the wrong or invalid kind is silently ignored instead of being rejected with MismatchedStreamType')
@@ -136,6 +161,8 @@ def run(ctx):
     D = hirq.Body(f, f.body(AC + 'from_url_with_settings'))
     ctx.analysed['bodies'].add(D.path)
     douts = absx.Interp(f, D, unroll=1, combinators=True).run(root=D.root['body'] if D.root['k'] == 'Closure' else D.root)
+    DURL, DSETT = one_param(ctx, f, D, '&Url', is_url), one_param(ctx, f, D, 'LdapConnSettings', is_settings)
+    sc = ('call', 'url::Url::scheme', (DURL,), None)
     seen = set()
     for o in douts:
         pcs = [(strip_site(a), t) for a, t in o.st.pc]
@@ -144,18 +171,20 @@ def run(ctx):
         tcp = [e for e in o.st.ev if e[0] == 'call' and e[1] == AC + 'new_tcp']
         if ldapi is True:
             seen.add('ldapi')
-            ctx.add('U2.ldapi-goes-to-unix', 'ldapi', loc(D.root), len(unix) == 1 and not tcp and unix[0][2] == (('param', 'url'), ('param', 'settings')), 'ldapi must use the Unix constructor with (url, settings)')
+            ctx.add('U2.ldapi-goes-to-unix', 'ldapi', loc(D.root), len(unix) == 1 and not tcp and unix[0][2] == (DURL, DSETT), 'ldapi must use the Unix constructor with (url, settings)')
             continue
         if len(tcp) != 1:
             ctx.fail('U2.tcp-constructor', 'non-ldapi', loc(D.root), 'non-ldapi URLs must go through the TCP constructor exactly once'); continue
         tfut = ('call', tcp[0][1], tcp[0][2], tcp[0][3].get('id'))
         tmo = [e for e in o.st.ev if e[0] == 'call' and e[1] == 'tokio::time::timeout::timeout']
-        has_to = next((t for a, t in pcs if a[0] == 'is' and a[2] == 'Some' and a[1][0] == 'call' and a[1][1].endswith('Option::<T>::take')), None)
-        ok_args = tcp[0][2][0] == ('param', 'url') and tcp[0][2][1] == ('param', 'settings')
+        # (strip_site reads `settings.conn_timeout.take()` as the duration the settings held)
+        tmo_field = ('field', DSETT, F_TIMEOUT)
+        has_to = absx.pc_variant(pcs, lambda v: v == tmo_field, 'Some')
+        ok_args = tcp[0][2][0] == DURL and tcp[0][2][1] == DSETT
         ctx.add('U2.tcp-constructor-arguments', 'timeout=%s' % has_to, loc(D.root), ok_args, 'the TCP constructor is not given (url, settings)')
         if has_to is True:
             seen.add('timed')
-            ok = len(tmo) == 1 and tmo[0][2][1] == tfut and tmo[0][2][0][0] == 'variant' and tmo[0][2][0][1][0] == 'call' and tmo[0][2][0][1][2][0] == ('field', ('param', 'settings'), 'conn_timeout')
+            ok = len(tmo) == 1 and tmo[0][2][1] == tfut and strip_site(tmo[0][2][0]) == ('variant', tmo_field, 'Some', 0)
             ctx.add('U4.timeout-wraps-establishment', 'conn_timeout set', loc(D.root), ok, 'the connection timeout must wrap the future of the whole TCP constructor with the configured duration')
             if o.kind in ('val',) and len(tmo) == 1:
                 tt = ('await', ('call', tmo[0][1], tmo[0][2], tmo[0][3].get('id')))
@@ -172,10 +201,12 @@ def run(ctx):
     U = hirq.Body(f, f.body(up))
     ctx.analysed['bodies'].add(up)
     uouts = absx.Interp(f, U, unroll=1, combinators=True).run(root=U.root['body'] if U.root['k'] == 'Closure' else U.root)
+    UURL, USETT = one_param(ctx, f, U, '&Url', is_url), one_param(ctx, f, U, 'LdapConnSettings', is_settings)
+    hs = ('call', 'url::Url::host_str', (UURL,), None)
     seen = set()
     for o in uouts:
         pcs = [(strip_site(a), t) for a, t in o.st.pc]
-        ss = ('field', ('param', 'settings'), 'std_stream')
+        ss = ('field', USETT, F_STREAM)
         v = strip_site(o.val)
         if v[0] == 'tryerr' and v[1][0] == 'ctor' and v[1][1] == 'Err':
             v = v[1]            # `helper(..)?` propagating the helper's Err(x) is the same result as `return Err(x)`
